@@ -192,7 +192,7 @@ class ApplicationAssociationResponse(acse_base.AbstractAcseApdu):
         if not aare_tag == cls.TAG:
             raise ValueError("Bytes are not an AARQ APDU. TAg is not int(96)")
 
-        aare_length = aare_data.pop(0)
+        aare_length = BER.pop_length(aare_data)
 
         if not len(aare_data) == aare_length:
             raise ValueError(
@@ -216,7 +216,7 @@ class ApplicationAssociationResponse(acse_base.AbstractAcseApdu):
                     f"Could not find object with tag {object_tag} "
                     f"in AARQ definition"
                 )
-            object_length = aare_data.pop(0)
+            object_length = BER.pop_length(aare_data)
             object_data = bytes(aare_data[:object_length])
             aare_data = aare_data[object_length:]
 
